@@ -185,8 +185,7 @@ class Engine(CoreMixin, ExprMixin, CallMixin, LibMixin, StmtMixin, ReMixin):
         # vacuity guard: a clause tied to a program point must have met that point
         for key in con.ensures_local:
             if "@" in key:
-                name = key.split("@")[0]
-                if not any(("#post.%s@" % name) in ob.oid or ob.oid.endswith("#after.%s" % name) for ob in self.obligations):
+                if key not in self.after_sites_seen:
                     raise Unsupported("program point of ensures_local %r not found in the source (no obligation generated)" % key)
         return self.obligations
 
@@ -242,9 +241,11 @@ class Engine(CoreMixin, ExprMixin, CallMixin, LibMixin, StmtMixin, ReMixin):
             if "@after:" in name:
                 continue        # intermediate assertion, see check_after_assign
             if "@" in name:
+                key = name
                 name, only = name.split("@")
                 if only != site:
                     continue
+                self.after_sites_seen.add(key)
             self.cur_clause = name
             env = dict(o.st.env)
             env.update(self.params_env)
